@@ -180,6 +180,10 @@ pub struct World {
     /// 3 = Info (default), 4 = Debug, 5 = Trace. Records above Info are formatted but not observed.
     #[serde(default = "default_log_level")]
     pub log_level: u8,
+    /// process environment while this world runs: 0 = baseline, 1.. = one of `job::ENVIRONMENTS` (environment
+    /// variables and working directory a user's shell may differ in). References always run in the baseline.
+    #[serde(default)]
+    pub env: u8,
 }
 
 pub fn default_log_level() -> u8 {
@@ -196,6 +200,7 @@ impl World {
             sched: SchedSpec::Sequential,
             note: String::new(),
             log_level: 3,
+            env: 0,
         }
     }
 }
